@@ -410,7 +410,7 @@ func checkRestrictedJoinSelection(c *fw.Ctx) {
 		nd("the local server is in the allowed room", true, ".LocalServerInRoom"),
 		nd("the joining user is in the allowed room", true, ".UserJoinedToRoom"),
 		nd("the chosen event is a member event with a state key", false, ".StateKey(", " == nil)"),
-		{"the chosen user is a creator or may invite", []lit{{[]string{"slices.Contains(", "creators"}, true}, {[]string{".UserLevel(", " < ", ".Invite)"}, false}, {[]string{".UserLevel(", " >= ", ".Invite)"}, true}, {[]string{"slices.Contains(phi("}, true}}},
+		{"the chosen user is a creator or may invite", []lit{{[]string{"slices.Contains(", "reators"}, true}, {[]string{".UserLevel(", " < ", ".Invite)"}, false}, {[]string{".UserLevel(", " >= ", ".Invite)"}, true}, {[]string{"slices.Contains(phi("}, true}}},
 	}
 	known := func(atom string) bool {
 		if !fw.AtomCallsUnexportedHelper(atom) {
@@ -434,7 +434,7 @@ func checkRestrictedJoinSelection(c *fw.Ctx) {
 		// the selection loop may live in an unexported helper: its conditions are part of the path
 		cond := fw.ExpandDNF(pc[r.Block()], known)
 		for _, nn := range needs {
-			bad := false
+			bad, opaque := false, ""
 			for _, term := range cond {
 				ok := false
 				for _, l := range nn.alts {
@@ -444,7 +444,17 @@ func checkRestrictedJoinSelection(c *fw.Ctx) {
 				}
 				if !ok {
 					bad = true
+					// a condition decided inside an unexported helper that could not be opened may be what establishes it
+					for _, l := range term {
+						if fw.AtomCallsUnexportedHelper(l.Atom) {
+							opaque = l.Atom
+						}
+					}
 				}
+			}
+			if bad && opaque != "" {
+				c.Undecided(rule, "restricted join: an authorising user is returned only if "+nn.what, "the path depends on "+opaque+", which the rule could not open")
+				continue
 			}
 			c.Check(!bad, rule, "restricted join: an authorising user is returned only if "+nn.what, c.P.Pos(fw.InstrPos(r)), "", "a user id is returned on a path that does not establish it")
 		}
